@@ -154,3 +154,17 @@ def shares_memory(result, args):
             if np.shares_memory(r, a):
                 return (i, j)
     return None
+
+
+def shares_labelled(result, args):
+    """like shares_memory, but a plain array result sharing memory with a plain array argument is not reported: the
+    property speaks of the *labelled content* of objects (identity-like array helpers may return their input)"""
+    def tops(x):
+        return list(x) if isinstance(x, (list, tuple)) else [x]
+    for r in tops(result):
+        for a in tops(args):
+            if isinstance(r, np.ndarray) and isinstance(a, np.ndarray):
+                continue
+            if shares_memory(r, a) is not None:
+                return (type(r).__name__, type(a).__name__)
+    return None
